@@ -2125,7 +2125,7 @@ class Lifter_Arml(Lifter):
         cond_num = cond_dct_inv[it_cond.name]
         cond_eq = tab_cond[cond_num]
 
-        if not index + len(it_hints) <= len(block.lines):
+        if not index + len(it_hints) < len(block.lines):
             raise NotImplementedError("Split IT block non supported yet")
 
         ir_blocks_all = []
